@@ -96,8 +96,8 @@ def _seq_strategy(tier):
         st.tuples(st.just('alloc'), st.integers(1, 4)),
         st.tuples(st.just('alloc'), st.integers(1, 4)),
         st.tuples(st.just('alloc_inside'), st.integers(1, 3), st.booleans(), st.integers(1, 4)),
-        st.tuples(st.just('store_high'), st.sampled_from(HIGH), st.booleans()),
-        st.tuples(st.just('store_high'), st.integers(1, 12), st.booleans()),
+        st.tuples(st.just('store_high'), st.sampled_from(HIGH), st.booleans(), st.booleans()),
+        st.tuples(st.just('store_high'), st.integers(1, 12), st.booleans(), st.booleans()),
         st.tuples(st.just('store_issued'), st.booleans()),
         st.tuples(st.just('update'), st.integers(0, 9)),
         st.tuples(st.just('update'), st.integers(0, 9)),
@@ -154,7 +154,7 @@ class RandStream:
         return max(a, min(b, v))
 
 
-def commit_records(storage, recs, restore=False, tid=None):
+def commit_records(storage, recs, restore=False, tid=None, serial_of_unknown=Z64):
     """one transaction storing (oid, data) records"""
     from ZODB.Connection import TransactionMetaData
     t = TransactionMetaData()
@@ -170,7 +170,7 @@ def commit_records(storage, recs, restore=False, tid=None):
                 try:
                     serial = storage.load(oid, '')[1]
                 except KeyError:
-                    serial = Z64
+                    serial = serial_of_unknown
                 storage.store(oid, serial, data, '', t)
         storage.tpc_vote(t)
         return storage.tpc_finish(t)
@@ -327,7 +327,14 @@ def execute(case):
                 if oid in issued:
                     continue
                 if op[2]:
-                    commit_records(cur, [(oid, rec())])
+                    from ZODB.FileStorage import FileStorage as _FS
+                    if len(op) > 3 and op[3] and isinstance(cur, _FS):
+                        # (a writer that believes the object exists - a replayed (oid, serial, data) triple: the file
+                        # storage takes a record for an id it does not know whatever serial comes with it)
+                        commit_records(cur, [(oid, rec())], serial_of_unknown=b'\0\0\0\0\0\0\0\x07')
+                        out.label('store-arbitrary-id-with-a-serial')
+                    else:
+                        commit_records(cur, [(oid, rec())])
                     state['high_event'] = True
                     out.label('store-arbitrary-id')
                 else:
